@@ -11,6 +11,9 @@ TRUST = ("Trusted base: go/types, go/ssa and the VTA/CHA call graphs of golang.o
 
 # id -> (technique, claim text, design_ref)
 CLAIMED = {
+ "C13": ("SSA must-lockset (blocking-operation-under-lock, lock re-acquisition incl. LIFO replay of deferred calls), select-shape rules, closed-protocol dominance, must-pass-through by path enumeration",
+         "Decides the structural conditions of 'never blocks, never delivers after close': every blocking receive has both Done() escapes, every send on the bounded queues is examined (the nine bare sends of the reader goroutine are recorded findings), every channel method tests closed under the lock before touching torn-down state, Close tears down in order, packet writes are preceded by a context test, Conn.Close cancels/closes on every path, the reader is bound to the connection context, no RWMutex is re-acquired through a callee, and every forwarded context derives from the caller's. Durations and schedules are not explored.",
+         "DESIGN.md §3 C13"),
  "C11": ("SSA call-site, dominance and path rules over tryParsePackage, handleSpecialPackage, the hook lists, NextPackageUntil and EEDError",
          "Decides the structural conditions of exactly-once reporting: hooks are dispatched from one place only, after a complete parse and before delivery; environment changes and informational messages never reach the consumer; each member/message reaches the hook list once with its own values under one mutex; every callback-error return carries the collected messages and still wraps the callback's error. Histories and packetisations are not explored (retry safety is C02/C07).",
          "DESIGN.md §3 C11"),
